@@ -159,8 +159,17 @@ fn run_event(net: &mut Net, ev: &Ev, seqs: &mut std::collections::HashMap<usize,
             if !net.nodes[*w].up {
                 return (None, holders(net, *key));
             }
+            if seqs.contains_key(&(1_000_000 + *key)) {
+                // a renewed announcement is made later than the first one
+                net.advance(5_000);
+                crate::simclock::set_real_us(crate::simclock::real_us() + 5_000_000);
+            }
             seqs.insert(*key, 1);
             let request = put_request(net, *w, *key, 1);
+            if let PutRequestSpecific::AnnounceSignedPeer(a) = &request {
+                // a later read has to see this announcement, not an older one by the same key
+                seqs.insert(1_000_000 + *key, a.t as i64);
+            }
             let (tx, rx) = flume::unbounded();
             net.nodes[*w].m.as_mut().unwrap().actor.verif_put(request, tx, None);
             net.quiesce();
@@ -173,7 +182,7 @@ fn run_event(net: &mut Net, ev: &Ev, seqs: &mut std::collections::HashMap<usize,
             }
             let rx = start_get(net, *r, *key);
             net.quiesce();
-            (Some(rx.found(net, *key, i64::MAX)), holders(net, *key))
+            (Some(rx.found(net, *key, i64::MAX, seqs.get(&(1_000_000 + *key)).copied().unwrap_or(0))), holders(net, *key))
         }
         Ev::GetJoin(r, key) => {
             if !net.nodes[*r].up {
@@ -187,7 +196,7 @@ fn run_event(net: &mut Net, ev: &Ev, seqs: &mut std::collections::HashMap<usize,
             );
             let rx = start_get(net, *r, *key);
             net.quiesce();
-            (Some(rx.found(net, *key, i64::MAX)), holders(net, *key))
+            (Some(rx.found(net, *key, i64::MAX, seqs.get(&(1_000_000 + *key)).copied().unwrap_or(0))), holders(net, *key))
         }
         Ev::PutGet(r, key) => {
             if !net.nodes[*r].up {
@@ -201,7 +210,7 @@ fn run_event(net: &mut Net, ev: &Ev, seqs: &mut std::collections::HashMap<usize,
             let rx = start_get(net, *r, *key);
             net.quiesce();
             // found = an item that was stored before (lower seq) reached the reader; its own in-flight item does not count
-            (Some(rx.found(net, *key, own_seq)), holders(net, *key))
+            (Some(rx.found(net, *key, own_seq, 0)), holders(net, *key))
         }
     }
 }
@@ -214,7 +223,7 @@ enum GetRx {
 }
 
 impl GetRx {
-    fn found(&self, _net: &Net, key: usize, below_seq: i64) -> bool {
+    fn found(&self, _net: &Net, key: usize, below_seq: i64, min_ts: i64) -> bool {
         let mut found = false;
         match self {
             GetRx::Imm(rx) => {
@@ -244,7 +253,7 @@ impl GetRx {
             GetRx::Signed(rx) => {
                 let pk = signer_of(key).verifying_key().to_bytes();
                 while let Ok(v) = rx.try_recv() {
-                    if v.iter().any(|a| *a.key() == pk) {
+                    if v.iter().any(|a| *a.key() == pk && a.timestamp() as i64 >= min_ts) {
                         found = true;
                     }
                 }
@@ -426,6 +435,17 @@ pub fn store_plan(r: &mut Rng, n_servers: usize, n_clients: usize) -> Vec<Ev> {
                     }
                 }
             }
+            7 if keys_put.iter().any(|k| kind_of(*k) == 3) && r.chance(1, 2) => {
+                // the same signer announces again (a fresh timestamp) through a node that has not touched the key yet
+                let ks: Vec<usize> = keys_put.iter().copied().filter(|k| kind_of(*k) == 3).collect();
+                let k = *r.pick(&ks);
+                let cands: Vec<usize> = all.iter().copied().filter(|n| alive[*n] && !touched.contains(&(*n, k))).collect();
+                if !cands.is_empty() {
+                    let w = *r.pick(&cands);
+                    evs.push(Ev::Put(w, k));
+                    touched.push((w, k));
+                }
+            }
             _ => {
                 // crash a subset
                 let c = *r.pick(&all);
@@ -579,6 +599,22 @@ pub fn generate(seed: u64, scale: usize, which: &str) -> Cases {
             let plan = join_plan(&mut rr, n, with_dead);
             o.push(if with_dead { "joins-with-dead-addresses" } else { "joins" }, run_case(&mut rr, plan));
         }
+        // twenty servers, the last one given three dead addresses before the live one: its bootstrap lookup has to
+        // spend requests on the dead addresses and still query every server
+        {
+            let mut rr = r.fork();
+            let mut plan = vec![Ev::Join(true, vec![])];
+            for _ in 1..19 {
+                plan.push(Ev::Join(true, vec![0]));
+            }
+            plan.push(Ev::Dead);
+            plan.push(Ev::Dead);
+            plan.push(Ev::Dead);
+            plan.push(Ev::Join(true, vec![19, 20, 21, 0]));
+            plan.push(Ev::Lookup(22, true));
+            plan.push(Ev::Lookup(5, false));
+            o.push("twenty-servers-dead-addresses-first", run_case(&mut rr, plan));
+        }
         // networks beyond the reach of the whole-lookup model: connectivity verdict only
         for i in 0..(2 * scale) {
             let mut rr = r.fork();
@@ -619,6 +655,24 @@ pub fn generate(seed: u64, scale: usize, which: &str) -> Cases {
                 Ev::Get(3, key),
             ];
             o.push("corpus-get-joins-find_node", run_case(&mut rr, plan));
+        }
+        // the same signer announces a second time (through another node): readers get the newer announcement
+        {
+            let mut rr = r.fork();
+            let key = 7; // a signed-announcement key
+            let plan = vec![
+                Ev::Join(true, vec![]),
+                Ev::Join(true, vec![0]),
+                Ev::Join(true, vec![0]),
+                Ev::Join(true, vec![1]),
+                Ev::Join(false, vec![0]),
+                Ev::Put(1, key),
+                Ev::Get(2, key),
+                Ev::Put(3, key),
+                Ev::Get(0, key),
+                Ev::Get(4, key),
+            ];
+            o.push("signed-announcement-renewed", run_case(&mut rr, plan));
         }
         for i in 0..(8 * scale) {
             let mut rr = r.fork();
